@@ -134,6 +134,7 @@ def run_property(prop, tier="quick", root="/repo/verde", overlay=None, write=Tru
             _common.shared_contracts(ctx)
             _common.library_keywords(ctx)
             _common.accumulate_uninitialised(ctx)
+            _common.use_after_clobber(ctx)
     except UndecidedFunction as e:
         err = "ANALYSIS-UNDECIDED property=%s unsupported construct in %s" % (prop, e)
     except AnalysisError as e:
